@@ -24,8 +24,11 @@ func init() {
 			{"C12/query-token", "QueryInfo: non-error only after HS256 parse, MAC under QuerySigningKey and issuer/expiry validation; returns the verified subject", c12QueryToken},
 			{"C12/bindings", "generator host == file's full address; token written == generator result; gateway host from config; user = session name (split at '@' under domain splitting)", c12Bindings},
 			{"C12/claims", "generator claims = server and user parameters, context clientIp and access token", func(c *Ctx) { c04ClaimFlowAs(c, "C12/claims") }},
+			{"C12/config-wiring", "main fills the download handler's configuration from the configuration fields of the same meaning, on every path to NewHandler", c12ConfigWiring},
 			{"C12/issue-verify-agreement", "placeholder constant and substitution call agree between HandleDownload and security.CheckHost", c12IssueVerify},
+			{"C12/key-wiring", "main copies the configured PAA and query-token keys into the variables the generator and QueryInfo read", func(c *Ctx) { keyWiring(c, "C12/key-wiring", "SigningKey", "QuerySigningKey") }},
 			{"C12/client-address", "the clientIp attribute bound into the token is this request's X-Forwarded-For[0] or TCP peer (C04's source rule)", func(c *Ctx) { c04SourceAs(c, "C12/client-address") }},
+			{"C12/hosts-immutable", "the configured host list (shared by the download handler and the tunnel policy) is never rewritten while serving requests", func(c *Ctx) { sharedSliceWrites(c, "C12/hosts-immutable") }},
 			{"C12/handler-wiring", "every Handler field read on request paths is initialised by NewHandler from the Config field of the same name", c12HandlerWiring},
 		},
 	})
@@ -573,4 +576,70 @@ func c12HandlerWiring(c *Ctx) {
 		c.Check(good, rule, "Handler."+name, hT.Field(i).Pos(), "initialised from Config."+how, "Handler."+name+" is read while serving requests but NewHandler does not initialise it from the configuration: the behaviour it selects falls back to the zero value")
 	}
 	c.Floor(rule, 6, "handler fields read on request paths")
+}
+
+// c12ConfigWiring: web.Config is filled by main (or a start-up helper) from conf; a field that is
+// set only under an unrelated switch, or from another setting, silently changes what the handler
+// enforces (an empty query-token issuer turns the issuer check off).
+func c12ConfigWiring(c *Ctx) {
+	rule := "C12/config-wiring"
+	mainFn := c.Fn("cmd/rdpgw", "main")
+	want := map[string]string{
+		"QueryTokenIssuer": "Security.QueryTokenIssuer",
+		"EnableUserToken":  "Security.EnableUserToken",
+		"Hosts":            "Server.Hosts",
+		"HostSelection":    "Server.HostSelection",
+		"TemplateFile":     "Client.Defaults",
+	}
+	isCfgField := func(in ssa.Instruction, field string) (*ssa.Store, bool) {
+		s, ok := in.(*ssa.Store)
+		if !ok {
+			return nil, false
+		}
+		fa, ok := s.Addr.(*ssa.FieldAddr)
+		if !ok {
+			return nil, false
+		}
+		_, f, ok := fieldOfAddr(fa)
+		if !ok || f.Name() != field {
+			return nil, false
+		}
+		pt, ok := fa.X.Type().Underlying().(*types.Pointer)
+		if !ok || !typeIs(pt.Elem(), webPkgPath, "Config") {
+			return nil, false
+		}
+		return s, true
+	}
+	var nh ssa.Instruction
+	for _, ci := range c.mainCallsTo("(*" + webPkgPath + ".Config).NewHandler") {
+		nh = ci.(ssa.Instruction)
+	}
+	if nh == nil {
+		c.Missing("NewHandler call in main")
+	}
+	for _, field := range sortedKeys(want) {
+		n := 0
+		good := true
+		why := ""
+		c.eachMainInstr(func(in ssa.Instruction) {
+			s, ok := isCfgField(in, field)
+			if !ok {
+				return
+			}
+			n++
+			if p, okp := confFieldPath(s.Val); !okp || p != want[field] {
+				good, why = false, "set from conf."+p
+			}
+		})
+		if n == 0 {
+			good, why = false, "never set"
+		}
+		if good && nh.Parent() == mainFn {
+			if reachWithoutMarker(mainFn, nh, func(in ssa.Instruction) bool { _, ok := isCfgField(in, field); return ok }) {
+				good, why = false, "not set on every path to NewHandler"
+			}
+		}
+		c.Check(good, rule, "web.Config."+field, nh.Pos(), "= conf."+want[field]+" on every path to NewHandler", "web.Config."+field+" is "+why+" (expected conf."+want[field]+" unconditionally): the download handler enforces something else than configured")
+	}
+	c.Floor(rule, 5, "five configuration fields")
 }
